@@ -174,6 +174,13 @@ Theorem C01_tls12_aead_session : forall C, CryptoLaws C -> forall tbl parts keyl
 Proof. exact tls12_aead_session. Qed.
 Print Assumptions C01_tls12_aead_session.
 
+(* The events also admit plaintext handshake records of a direction that has not yet sent its ChangeCipherSpec while the peer has
+   (EPlain; RFC 5077: the server's NewSessionTicket behind the client's Finished): nothing is decrypted, the session is unchanged, the
+   record is metadata.  The full handshake with a session ticket is such a history: *)
+Example C01_tls12_ticket_shape : forall ex1 ex2 ex3 c1 c2 c3 ticket,
+  ordered false false [ECcs false; EEnc false 22 ex1 c1; EPlain true ticket; ECcs true; EEnc true 22 ex2 c2; EEnc false 23 ex3 c3].
+Proof. intros. cbn. repeat split. Qed.
+
 (* the same for TLS 1.2 ChaCha20-Poly1305 (RFC 7905) *)
 Theorem C01_tls12_chacha_session : forall C, CryptoLaws C -> forall tbl parts keylog key_c iv_c key_s iv_s version tag,
   len version = 2 -> 8 <= len iv_c -> 8 <= len iv_s ->
